@@ -1857,7 +1857,7 @@ class DynamicSeedingInstrumentation(transformer.DynamicSeedingInstrumentationAda
                 code_object_id,
                 node,
                 maybe_compare,
-                maybe_compare_index,
+                node.block_index_of(maybe_compare_index),
             )
             return
 
@@ -1875,7 +1875,7 @@ class DynamicSeedingInstrumentation(transformer.DynamicSeedingInstrumentationAda
                 code_object_id,
                 node,
                 maybe_string_func,
-                maybe_string_func_index,
+                node.block_index_of(maybe_string_func_index),
             )
             return
 
@@ -1894,7 +1894,7 @@ class DynamicSeedingInstrumentation(transformer.DynamicSeedingInstrumentationAda
                         code_object_id,
                         node,
                         maybe_string_func_with_arg,
-                        maybe_string_func_with_arg_index,
+                        node.block_index_of(maybe_string_func_with_arg_index),
                     )
                 case "endswith":
                     self.visit_endswith_function(
@@ -1903,7 +1903,7 @@ class DynamicSeedingInstrumentation(transformer.DynamicSeedingInstrumentationAda
                         code_object_id,
                         node,
                         maybe_string_func_with_arg,
-                        maybe_string_func_with_arg_index,
+                        node.block_index_of(maybe_string_func_with_arg_index),
                     )
 
     def visit_compare_op(  # noqa: D102, PLR0917
